@@ -116,28 +116,28 @@ def helper_rules(chk, repo):
                    f.loc(p.node))
     # mesh
     f, paths, _ = analyse(repo, 'helper.mesh', config={'shape': shape, 'shift': shift})
+    from ..elem import ElemEval, Unsupported
+    from ..shapes import Shapes
     for p in returns(paths):
-        mg = [e for e in p.events if e.kind == 'call' and e.data.get('callee') == 'ext:numpy.meshgrid']
-        if len(mg) != 1:
-            raise AnalysisError('helper.mesh: expected one meshgrid call')
-        args, kw = mg[0].data['args'], mg[0].data['kwargs']
-        for ax in (0, 1):
-            want = nf.app('arange', shape.items[ax]) - HALF(shape.items[ax]) - shift.items[ax]
-            chk.ob('C20-d', 'N-identity', f.key, f'axis {ax} coordinate = index - floor(n/2) - shift',
-                   len(args) == 2 and args[ax] == want, f'{fmt(args[ax]) if len(args) == 2 else "?"}; expected {fmt(want)}',
-                   f.loc(mg[0].node))
-        chk.ob('C20-d', 'N-identity', f.key, "meshgrid indexing='ij' (row coordinate first)",
-               kw.get('indexing') == Const('ij'), f'indexing={kw.get("indexing")!r}', f.loc(mg[0].node))
-        rr, cc = [Poly.atom(a) for a in sorted(nf.value_atoms(p.ret), key=nf.akey) if is_app(a, 'meshgrid')
-                  and a[2][-1] in (C(0), C(1))][:2] if True else (None, None)
-        ms = sorted([a for a in nf.value_atoms(p.ret) if is_app(a, 'meshgrid')], key=lambda a: a[2][-1].const_value())
-        if len(ms) == 2:
-            rr, cc = Poly.atom(ms[0]), Poly.atom(ms[1])
-            ang = nf.app('deg2rad', S('angle'))
-            want = Tup([rr * nf.app('cos', ang) + cc * nf.app('sin', ang),
-                        -rr * nf.app('sin', ang) + cc * nf.app('cos', ang)])
-            chk.ob('C20-d', 'N-identity', f.key, 'rotation is a proper rotation of (r, c)', p.ret == want,
-                   f'returns {fmt(p.ret)}', f.loc(p.node))
+        # element [i, j] of the two returned grids, however they are built (meshgrid, broadcasting of a column against a
+        # row, mgrid): r[i, j] = x*cos + y*sin, c[i, j] = -x*sin + y*cos with x = i - floor(nr/2) - shift[0],
+        # y = j - floor(nc/2) - shift[1]
+        i_, j_ = S('@i'), S('@j')
+        x = i_ - HALF(shape.items[0]) - shift.items[0]
+        y = j_ - HALF(shape.items[1]) - shift.items[1]
+        ang = nf.app('deg2rad', S('angle'))
+        want = [x * nf.app('cos', ang) + y * nf.app('sin', ang), -x * nf.app('sin', ang) + y * nf.app('cos', ang)]
+        ok, det = None, ''
+        if isinstance(p.ret, Tup) and len(p.ret) == 2:
+            try:
+                ee = ElemEval(Shapes({}, assume_scalar=True))
+                got = [ee.at(p.ret.items[k], (i_, j_)) for k in (0, 1)]
+                ok = got[0] == want[0] and got[1] == want[1]
+                det = f'r[i,j] = {fmt(got[0])[:150]}; c[i,j] = {fmt(got[1])[:150]}'
+            except Unsupported as e:
+                det = f'undecided: {e}'
+        chk.ob('C20-d', 'N-identity', f.key, 'grid element [i, j] = rotation of (i - floor(nr/2) - shift[0], j - floor(nc/2) - shift[1])',
+               ok, det, f.loc(p.node))
     # boundary_slice
     f, paths, _ = analyse(repo, 'helper.boundary_slice', config={'pad': pair('pad')})
     for p in returns(paths):
@@ -480,7 +480,7 @@ def run(chk, repo, tier):
     operands_untouched(chk, repo, 'C20-o', ['util.pad', 'util.boundary', 'util.centroid', 'util.rebin', 'util.rescale', 'helper.boundary_slice', 'helper.slice_offset', 'helper.mesh', 'shape.circle', 'shape.hexagon', 'shape.rectangle', 'shape.spider'], allow=[])
     chk.clause('C20-a', 'pad keeps the origin sample at the new origin on every path; copied extents equal', 8)
     chk.clause('C20-b', 'cubes: every bound on image axis k derives from array.shape[k+1] and shape[k]', 2)
-    chk.clause('C20-d', 'subarray, slice_offset, mesh and boundary_slice agree with array_extent', 9)
+    chk.clause('C20-d', 'subarray, slice_offset, mesh and boundary_slice agree with array_extent', 7)
     chk.clause('C20-e', 'boundary reduces rows over axis 1 and columns over axis 0; rebin sums exactly the factor axes; centroid axes', 7)
     chk.clause('C20-f', 'drawn shapes lie in [0,1] and are binary without antialiasing', 8)
     chk.clause('C20-g', 'hex_ring yields 6*radius hexagons; hex_segments counts 1+3k(k+1)-|drop|', 3)
